@@ -20,6 +20,7 @@ THEOREMS = [
     "Typedpy.C13.counterexample_falsy_default_kw",
     "Typedpy.C13.counterexample_union_duplicate", "Typedpy.C13.statement_false",
     "Typedpy.C13.none_first_equiv", "Typedpy.C13.none_inner_optional", "Typedpy.C13.hasNoneOpt_position",
+    "Typedpy.C13.tuple_single_equiv",
     "Typedpy.C13.equiv_example",
 ]
 RULE = ("class bodies of 1-3 fields; each field an abstract meaning tree (scalar / constrained field literal / bare or "
@@ -37,8 +38,8 @@ RULE = ("class bodies of 1-3 fields; each field an abstract meaning tree (scalar
         "positions x bracketings for a few operand types; such a field is optional in every spelling (by itself "
         "where typedpy documents it, through _optional otherwise)")
 ASSUMPTIONS = [
-    "vocabulary: int/str/float/bool/Any, list/set/frozenset/deque and their typing aliases, dict/Dict/Map, Optional/Union/AnyOf/|, "
-    "constrained Integer/Float/Number/String/Enum literals; tuple, date/time and Structure-valued fields are not in the spelling grammar",
+    "vocabulary: int/str/float/bool/Any, list/set/frozenset/deque/single-argument tuple and their typing aliases, dict/Dict/Map, Optional/Union/AnyOf/|, "
+    "constrained Integer/Float/Number/String/Enum literals; multi-argument tuples, date/time and Structure-valued fields are not in the spelling grammar",
     "defaults are immutable scalar literals (int/str/float/bool); None and callable defaults are outside the modelled domain",
     "the class source is executed at module level of a module registered in sys.modules (what the future-annotations eval needs)",
     "Python 3.12 typing semantics (Union flattening / de-duplication, no callable check on arguments)",
